@@ -455,13 +455,13 @@ def check_probes(ur):
     with ThreadPoolExecutor(max_workers=len(levels)) as ex:
         outs = list(ex.map(one, levels))
     missing = [m for ms, _ in outs for m in ms]
-    if missing:
-        where = []
-        for l, _o in sorted(missing)[:5]:
-            f = ur.fn_at(l)
-            where.append((f['id'] if f else '?') + '@gen:%d' % l)
-        raise Undecided('vacuity guard: %d of %d reachability probes did not fail (contradictory precondition/invariant/axioms?): %s' % (len(missing), n, ', '.join(where)))
-    return n, max(w for _, w in outs)
+    where = []
+    for l, _o in sorted(missing):
+        f = ur.fn_at(l)
+        where.append(((f['id'] if f else '?'), l))
+    # the caller decides: a probe that does not fail inside a function for which the main run reports a failed obligation is
+    # explained by that failure (a loop whose invariant already fails on entry has a contradictory body context)
+    return n - len(missing), max(w for _, w in outs), where, n
 
 
 def check_la(scratch):
@@ -772,10 +772,15 @@ def _main(pid, P, tier, repo, seed, scratch, ev_path, t0):
     violations = []   # (failure dict, unit)
     undecided = []
     checker_cmds = []
-    for ur, (rc, res, diags, err, wall, cmd) in zip(urs, results):
+    for ui, (ur, (rc, res, diags, err, wall, cmd)) in enumerate(zip(urs, results)):
         checker_cmds.append(cmd)
         failures, und = analyse(ur, diags, res)
         undecided += und
+        # vacuity guard: every reachability probe must fail, except inside a function that already has a failed obligation
+        unexplained = [(fid, l) for (fid, l) in probes[ui][2] if not any(f.get('fn') == fid for f in failures)]
+        if unexplained:
+            raise Undecided('vacuity guard: %d of %d reachability probes did not fail (contradictory precondition/invariant/axioms?): %s'
+                            % (len(unexplained), probes[ui][3], ', '.join('%s@gen:%d' % x for x in unexplained[:5])))
         fb = fn_breakdown(res) if res else {}
         vr = (res or {}).get('verification-results', {})
         if res is None or (vr.get('verified', 0) == 0 and not failures):
